@@ -32,7 +32,9 @@ EXPLANATION = (
     'ChangeField mutations as absorbable and invalidates consumed entries, so '
     'it cannot fold away a duplicate AddField before it is rejected; '
     'R-C12.9 can_simulate becomes False only as a constructor default, in a CannotSimulate handler or by propagation from a mutator (the gate returns early when it is False); '
-    'R-C12.3 also counts MigrationRecorder.ensure_schema() as state-changing; R-C12.5 also requires the missing-initial guard of ChangeField.simulate on every normal path; R-C12.10 the gate must see models the simulation removes (known finding).')
+    'R-C12.3 also counts MigrationRecorder.ensure_schema() as state-changing; R-C12.5 also requires the missing-initial guard of ChangeField.simulate on every normal path; R-C12.10 the gate must see models the simulation removes (known finding).'
+    ' '
+    "R-C12.11 in FieldSignature.diff every path that leaves the handler of a failed field construction reaches changed_attrs.append('field_type') (flag-sensitive path search: constants assigned to local flags prune the branches they rule out).")
 NOT_DECIDED = (
     'That every perturbed evolution is in fact rejected (quantifies over '
     'evolutions and needs the diff/simulate semantics executed).')
@@ -752,7 +754,81 @@ def r10_gate_sees_removed_models(ctx):
                     key='gate-blind-to-removed-models')
 
 
+def r11_unbuildable_type_counts_as_changed(ctx):
+    """The gate rejects an evolution through the residual diff.
+    FieldSignature.diff() decides whether two different field classes are a
+    changed field_type by constructing both fields and comparing their
+    internal types; relation fields cannot be constructed from attributes
+    alone (TypeError).  "Could not find out" must mean "changed": every path
+    on which the construction failed has to reach
+    changed_attrs.append('field_type').  Mapping the failure to a sentinel
+    and comparing two sentinels (None != None) reports no difference, and an
+    evolution that adds a OneToOneField/ManyToManyField where the model
+    declares a ForeignKey passes the gate."""
+    ctx.rule('R-C12.11')
+    p = ctx.program
+    f = p.func('signature', 'FieldSignature.diff')
+    g = ctx.cfg(f)
+    reports = [n for n in g.nodes
+               if any(call_name(c) == 'append' and c.args and
+                      const_str(c.args[0]) == 'field_type'
+                      for c in n.calls())]
+    ctx.floor("changed_attrs.append('field_type') sites in "
+              'FieldSignature.diff', len(reports), 1)
+    n_h = 0
+    for t in walk_no_nested(f.node):
+        if not isinstance(t, ast.Try):
+            continue
+        builds = any(isinstance(c, ast.Call) and
+                     any(k.arg is None for k in c.keywords)
+                     for st in t.body for c in ast.walk(st))
+        if not builds:
+            continue
+        for h in t.handlers:
+            n_h += 1
+            hn = next((x for x in g.nodes if x.kind == 'except' and
+                       (x.ast is h or x.stmt is h)), None)
+            if hn is None:
+                raise AnalysisError('R-C12.11: handler node not found in '
+                                    'the CFG of FieldSignature.diff')
+            escape = g.path_with_flags(hn, g.exit, avoid=reports)
+            if escape is None:
+                ctx.ok(f, 'a field type that cannot be constructed is '
+                       'reported as changed', h)
+            else:
+                ctx.finding(f, h, 'FieldSignature.diff can leave the handler '
+                            'for a field type it could not construct without '
+                            'reporting field_type as changed (%s): two '
+                            'relation classes (ForeignKey vs OneToOneField / '
+                            'ManyToManyField) compare as "same type" and the '
+                            'residual-difference gate accepts the evolution' %
+                            ' -> '.join(
+                                'line %d' % getattr(x.stmt, 'lineno', 0)
+                                for x in escape[:6] if x.stmt is not None),
+                            key='unbuildable-type-not-reported')
+    ctx.counts['R-C12.11 handlers around field construction in diff'] = n_h
+    if n_h == 0:
+        # the construction moved into a helper that is not inlined: the
+        # helper must not swallow the failure into a value
+        for c in walk_no_nested(f.node):
+            if isinstance(c, ast.Call):
+                for callee in p.resolve_call(f, c) if hasattr(
+                        p, 'resolve_call') else []:
+                    for t in walk_no_nested(callee.node):
+                        if isinstance(t, ast.Try) and any(
+                                isinstance(x, ast.Return) for h in t.handlers
+                                for st in h.body for x in ast.walk(st)):
+                            ctx.finding(f, c, '%s turns a construction '
+                                        'failure into a return value; diff '
+                                        'compares two such values' %
+                                        callee.qualname,
+                                        key='unbuildable-type-not-reported')
+        ctx.floor('TypeError handlers around field construction reachable '
+                  'from FieldSignature.diff', n_h, 1)
+
+
 def run(ctx):
+    r11_unbuildable_type_counts_as_changed(ctx)
     r10_gate_sees_removed_models(ctx)
     r9_cannot_simulate_only_for_raw_sql(ctx)
     r8_optimiser_keeps_invalid_mutations(ctx)
